@@ -63,7 +63,15 @@ def run_one(chk, sseed, cls, npoints=6, chunk_level=False, from_empty=False, nex
     rng = random.Random(sseed)
     w = common.World(rng, 1, settings={"wipe_size_ratio": "0", "wipe_count_ratio": "0"})  # S4: wipe protection off
     clones = []
+    no_clean = False
     try:
+        if rng.random() < 0.35:
+            # a repository that is never cleaned: whatever a dead run leaves behind must be dealt with by the run itself, not by
+            # the cleaner happening to sweep it up
+            w.lines = [ln for ln in w.lines if not ln.startswith("clean ")]
+            w.sb.write_config(w.lines, w.settings)
+            chk.count("worlds_without_clean")
+            no_clean = True
         repo = w.repos[0]
         url = repo["url"]
         cfg = w.cfgs[url]
@@ -164,9 +172,18 @@ def run_one(chk, sseed, cls, npoints=6, chunk_level=False, from_empty=False, nex
                               f"{res3.exception!r}; lock file left: {lock_left}")
             else:
                 t = tree_set(sb, url)
-                if t != ref_tree:
-                    extra = sorted(t - ref_tree)[:3]
-                    missing = sorted(ref_tree - t)[:3]
+                rt = ref_tree
+                if no_clean:
+                    # without cleaning, files that the final version no longer references stay as they are - complete in the
+                    # uninterrupted history, possibly a torso after the crash; the tool never touches them. Compared: the
+                    # published metadata and everything it references
+                    needed = set(scenario.referenced_pool(final, cfg)) | set(scenario.referenced_pool(final, cfg, ignored_only=True))
+                    keepf = lambda e: e[0].startswith("dists/") or e[0] in needed
+                    t = {e for e in t if keepf(e)}
+                    rt = {e for e in ref_tree if keepf(e)}
+                if t != rt:
+                    extra = sorted(t - rt)[:3]
+                    missing = sorted(rt - t)[:3]
                     sig = "rerun-tree-differs:" + ("extra" if extra else "") + ("missing" if missing else "")
                     chk.violation(sig, r, f"crash before mutation {k} ({label}); after rerun: extra {extra} missing {missing}")
                 lo = leftovers(sb)
